@@ -39,6 +39,14 @@ pub fn v1_header(src: &SocketAddr, dst: &SocketAddr) -> Vec<u8> {
     format!("PROXY {fam} {} {} {} {}\r\n", src.ip(), dst.ip(), src.port(), dst.port()).into_bytes()
 }
 
+/// PROXY v2 header announcing a datagram transport (UDP over IPv4 / IPv6) instead of a stream.
+pub fn v2_header_dgram(src: &SocketAddr, dst: &SocketAddr) -> Vec<u8> {
+    let mut h = v2_header(src, dst, false);
+    // byte 13: address family (high nibble) and transport (low nibble: 1 stream, 2 datagram)
+    h[13] = (h[13] & 0xf0) | 0x02;
+    h
+}
+
 pub fn v2_header(src: &SocketAddr, dst: &SocketAddr, local: bool) -> Vec<u8> {
     let mut h = b"\r\n\r\n\0\r\nQUIT\n".to_vec();
     if local {
@@ -155,7 +163,8 @@ fn generate(rng: &mut Rng) -> C15Sc {
                     kind = "absent";
                 }
                 _ => {
-                    spec.preamble = Some(v2_header(&src, &dst, false));
+                    // the announced transport is a datagram one: still a header that announces a source
+                    spec.preamble = Some(if rng.chance(1, 2) { v2_header_dgram(&src, &dst) } else { v2_header(&src, &dst, false) });
                     valid = v2;
                     effective = src;
                     kind = if v2 { "v2" } else { "v2_disabled" };
